@@ -20,6 +20,22 @@ pub fn check_history<T: Sc>(rng: &mut Rng, spec: &CodedSpec, len: usize) -> (u64
         Ok(md) => md,
         Err(e) => return (1, 0, Some(format!("valid specification rejected: {e}"))),
     };
+    // a parameter vector of the wrong length is also wrong when it arrives as the initial guess, whatever
+    // the position of that call: either the builder refuses, or the model it returns is consistent
+    // (params() of the declared length, evaluation without a panic)
+    if rng.chance(0.2) && spec.funcs.last().map(|f| !f.params.is_empty()).unwrap_or(false) {
+        let l = if rng.chance(0.5) { np + rng.int(1, 3) } else { np - 1 };
+        let wrong: Vec<f64> = (0..l).map(|i| 0.4 + 0.6 * i as f64).collect();
+        if let Ok(bad) = build_coded_opts::<T>(spec, &wrong, &mb, true) {
+            let plen = bad.params().len();
+            let r = crate::run::guarded(|| (bad.eval().is_ok(), (0..np).all(|k| bad.eval_partial_deriv(k).is_ok())));
+            match r {
+                Err((loc, msg)) => return (1, 1, Some(format!("a model built with an initial guess of length {l} for {np} parameters panics when evaluated: {msg} at {loc}"))),
+                Ok(_) if plen != np => return (1, 1, Some(format!("a model built with an initial guess of length {l} reports {plen} parameters, {np} were declared"))),
+                Ok(_) => {}
+            }
+        }
+    }
     let mut accepted: Vec<T> = a0.iter().map(|v| T::of(*v)).collect();
     let snapshot = |model: &varpro::model::SeparableModel<T>| -> Result<Vec<u64>, String> {
         let mut bits = bits_of(&model.params());
